@@ -725,6 +725,14 @@ def cut_includes(rng, text, main_url, ncuts=None, places=("", "sub/", "../")):
         i, j = rng.choice(marked) if marked and rng.random() < 0.6 else rng.choice(ranges)
         place = rng.choice(places)
         name = "%sinc%d.conf" % (place, len(resources))
+        r = rng.random()
+        if r < 0.12 and url != main_url and not place:
+            # a fragment whose name differs from its includer's only in letter case
+            base = url.rsplit("/", 1)[1]
+            name = base.swapcase() if base.swapcase() != base else name
+        elif r < 0.3:
+            # a file name of several words
+            name = "%sinc %d part.conf" % (place, len(resources))
         target = model.url_join(url, name)
         if target in resources:
             continue
